@@ -31,7 +31,7 @@ def run(tier: str) -> int:
     vectors = comp.all_option_vectors()
     n = 120 if tier == "thorough" else 12
     progs = [(f"fixed:{k}", v, []) for k, v in FIXED.items()]
-    progs += [(f"probe:{k}", v, []) for k, v in probes.call_probes()]
+    progs += [(f"probe:{k}", v, []) for k, v in probes.call_probes() + probes.call_matrix()]
     for sp in base.gen_specs(n, cfg(), tier, salt=23):
         progs.append((sp["name"], sp["sources"], sp["features"]))
     for sp in base.gen_specs(n // 2, None, tier, salt=29):
